@@ -7,6 +7,13 @@
                     representation items, its framing, trailing frames, and the bytes the harness sent;
                     the Gallina side encodes the description itself (H2Spec) and answers BADCASE unless it
                     obtains exactly those bytes.  q = request (client preface first), s = response.
+     G <cap> <conn>:<t ms>:<frame hex> ...
+                    packet level: Ethernet frames in trace order through the concrete HTTP analyzer model
+                    (Model/HttpAnalyzer.v, flow table of capacity <cap>) with the HTTP/1 + HTTP/2 parser pair of
+                    Model/HttpH2.v (= HttpProcessors::parse_request / parse_response); one token per packet joined
+                    by ';':  ERR | - | Q.<..> | R.<..> (HTTP/1, as EC09) | Q2 <request line without auth/scheme>
+                    | R2 <response line>.  SPEC: the C07 property -- every packet reports what it reports when the
+                    packets of its connection <conn> run alone (fresh table, same capacity); `-` outside capacity.
    frames : `;`-separated  <type>.<flags>.<reserved bit>.<stream>.<payload hex>          (as in EC17)
    items  : `,`-separated  U<n> | X<idx>:<name>:<value> | L<m><idx>:<name>:<value>:<hv>
                            | N<m>:<name>:<value>:<hn><hv>      (hex or -, m = i|w|n, hn/hv = 0|1 Huffman)
@@ -20,22 +27,13 @@
    http_languages::get_highest_quality_language on that value. *)
 From Coq Require Import List NArith Bool.
 From Coq Require Import Strings.Byte.
-From HN Require Import Base.Bytes Model.H2Text Model.H2Frames Model.Hpack Model.H2Msg Spec.H2Wire Spec.H2Spec.
+From HN Require Import Base.Bytes Base.Cache Model.H2Text Model.H2Frames Model.Hpack Model.H2Msg Model.H2Show Model.HttpAnalyzer Model.HttpH2 Spec.H2Wire Spec.H2Spec.
 Import ListNotations.
 Open Scope N_scope.
 
 Definition bad : bytes := bs "BADCASE".
 Definition dash : bytes := bs "-".
 Definition star : bytes := bs "*".
-Definition tilde : bytes := bs "~".
-
-Definition safe_char (b : byte) : bool :=
-  let n := b2n b in
-  ((48 <=? n) && (n <=? 57)) || ((65 <=? n) && (n <=? 90)) || ((97 <=? n) && (n <=? 122))
-  || (n =? 45) || (n =? 46) || (n =? 95) || (n =? 47).
-Definition escs_byte (b : byte) : bytes := if safe_char b then [b] else "%"%byte :: show_hex [b].
-Definition escs (t : bytes) : bytes := flat_map escs_byte t.
-Definition escs_opt (o : option bytes) : bytes := match o with Some t => escs t | None => tilde end.
 
 Definition hex_or_dash (t : bytes) : option bytes := if bytes_eqb t dash then Some [] else read_hex t.
 
@@ -123,24 +121,41 @@ Definition parse_framing (t : bytes) : option (framing * list N) :=
   | _ => None
   end.
 
-(* ---------------- printing ---------------- *)
-Definition show_hhdr (h : hhdr) : bytes := show_N (h_pos h) ++ bs ":" ++ escs (h_name h) ++ bs ":" ++ escs_opt (h_value h).
-Definition show_cookie (c : cookie) : bytes := show_N (c_pos c) ++ bs ":" ++ escs (c_name c) ++ bs ":" ++ escs_opt (c_value c).
-Definition show_al (o : option bytes) : bytes :=
-  match o with Some v => bs "{al:" ++ show_hex v ++ bs "}" | None => tilde end.
-Definition show_req (v : req_view) : bytes :=
-  escs (v_method v) ++ bs " " ++ escs (v_path v) ++ bs " auth=" ++ escs_opt (v_authority v)
-  ++ bs " scheme=" ++ escs_opt (v_scheme v)
-  ++ bs " hdr=" ++ join (bs ",") (map show_hhdr (v_headers v))
-  ++ bs " cookies=" ++ join (bs ",") (map show_cookie (v_cookies v))
-  ++ bs " referer=" ++ escs_opt (v_referer v) ++ bs " ua=" ++ escs_opt (v_user_agent v)
-  ++ bs " lang=" ++ show_al (v_accept_language v) ++ bs " sig=" ++ escs (v_signature v).
-Definition show_resp (w : resp_view) : bytes :=
-  show_N (w_status w) ++ bs " hdr=" ++ join (bs ",") (map show_hhdr (w_headers w)) ++ bs " sig=" ++ escs (w_signature w).
-Definition show_pres {A} (f : A -> bytes) (r : pres A) : bytes :=
-  match r with POk a => f a | PNone => bs "NONE" | PErr => bs "ERR" | PPanic => bs "PANIC" end.
 (* the property pins a report for every valid description, so a missing SPEC report prints as ERR *)
 Definition show_spec {A} (f : A -> bytes) (o : option A) : bytes := match o with Some a => f a | None => bs "ERR" end.
+
+(* ---------------- kind G: packet level (helpers as in EC07) ---------------- *)
+Fixpoint parse_events (ts : list bytes) : option (list (N * bytes)) :=
+  match ts with
+  | [] => Some []
+  | t :: r =>
+      match split_lin ":"%byte t, parse_events r with
+      | [c; _; h], Some es =>
+          match read_N c, read_hex h with
+          | Some n, Some f => Some ((n, f) :: es)
+          | _, _ => None end
+      | _, _ => None end
+  end.
+Fixpoint count_N (c : N) (l : list N) : nat :=
+  match l with [] => O | x :: r => if N.eqb x c then S (count_N c r) else count_N c r end.
+Fixpoint nodup_N (l : list N) (seen : list N) : list N :=
+  match l with
+  | [] => []
+  | x :: r => if existsb (N.eqb x) seen then nodup_N r seen else x :: nodup_N r (x :: seen)
+  end.
+Fixpoint lookup_N {A} (c : N) (t : list (N * A)) (d : A) : A :=
+  match t with [] => d | (k, v) :: r => if N.eqb k c then v else lookup_N c r d end.
+Fixpoint alone_in_order (table : list (N * list bytes)) (conns seen : list N) : list bytes :=
+  match conns with
+  | [] => []
+  | c :: r => nth (count_N c seen) (lookup_N c table []) (bs "?") :: alone_in_order table r (c :: seen)
+  end.
+Definition http12_tokens (cap : N) (fs : list bytes) : list bytes :=
+  map http12_out_line (snd (http12_run (cache_new cap) fs)).
+Definition spec_alone12 (cap : N) (evs : list (N * bytes)) : bytes :=
+  let conns := map fst evs in
+  let table := map (fun c => (c, http12_tokens cap (map snd (filter (fun e => N.eqb (fst e) c) evs)))) (nodup_N conns []) in
+  join (bs ";") (alone_in_order table conns []).
 
 Definition run_line (l : bytes) : bytes :=
   match fields_lin l with
@@ -157,6 +172,16 @@ Definition run_line (l : bytes) : bytes :=
                  | Some data => out3 (show_pres show_resp (analyse_response data)) dash false
                  | None => bad end
         | _ => bad end
+      else if bytes_eqb k (bs "G") then
+        match args with
+        | c :: evs =>
+            match read_N c, parse_events evs with
+            | Some cap, Some evs =>
+                out3 (join (bs ";") (http12_tokens cap (map snd evs)))
+                     (if http12_within_capacityb (cache_new cap) (map snd evs) then spec_alone12 cap evs else dash)
+                     false
+            | _, _ => bad end
+        | [] => bad end
       else if bytes_eqb k (bs "A") then
         match args with
         | [dir; ctl; sid; items; framing; trail; h] =>
@@ -195,6 +220,13 @@ Example run_line_ex :
   run_line (bs "A q 4.0.0.0.000300000064;8.0.1.0.00ef0001 3 U256,X2:3a6d6574686f64:474554,X7:3a736368656d65:6874747073,Li4:3a70617468:2f7365617263683f713d31:1,Ln1:3a617574686f72697479:612e6578616d706c65:0,Ni:782d637573746f6d:31:11,X62:782d637573746f6d:31,Lw32:636f6f6b6965:613d623b20633d64:1,Lw17:6163636570742d6c616e6775616765:64652c20656e3b713d302e35:0 000000/80000000ff/7,8/1/0 - 505249202a20485454502f322e300d0a0d0a534d0d0a0d0a00000604000000000000030000006400000408008000000000ef00010000100129000000030380000000ff3fe1018287448900000000000109000000000361000036090400000003051d849ffced007f1109612e6578616d706c654086f2b12d424f4f810fbe0f11861c11fda848240f020c64652c20656e3b713d302e35")
   = let r := bs "GET /search%3fq%3d1 auth=a.example scheme=https hdr=4:x-custom:1,5:x-custom:1,7:accept-language:de%2c%20en%3bq%3d0.5 cookies=0:a:b,1:c:d referer=~ ua=~ lang={al:64652c20656e3b713d302e35} sig=2%3ax-custom%3d%5b1%5d%2cx-custom%3d%5b1%5d%2caccept-language%3d%5bde%2c%20en%3bq%3d0.5%5d%3aHost%2cUser-Agent%2cConnection%2cAccept%2cAccept-Encoding%2cAccept-Charset%2cKeep-Alive%3a%3f%3f%3f" in
     r ++ [tab] ++ r ++ [tab] ++ bs "0".
+Proof. vm_compute. reflexivity. Qed.
+
+(* kind G: an HTTP/2 connection start (preface, SETTINGS, PRIORITY-flagged HEADERS, Huffman + indexing) split over
+   two TCP segments, interleaved with an HTTP/1.1 exchange; the HTTP/2 request is reported at its second segment *)
+Example run_line_ex_G :
+  run_line (bs "G 8 0:1000000:02000000000102000000000208004500003412344000400600000a0100025db8d8234e2101bb066fa972000000008002ffff00000000020405b40402010303070000 1:1000005:02000000000102000000000208004500003412344000400600000a0100035db8d8244e2200505395121b000000008002ffff00000000020405b40402010303070000 0:1000055:02000000000102000000000208004500002c12344000400600005db8d8230a01000201bb4e2150cd7c45066fa9736012ffff00000000020405b4 1:1000030:02000000000102000000000208004500002c12344000400600005db8d8240a01000300504e2269136c165395121c6012ffff00000000020405b4 0:1000086:02000000000102000000000208004500002812344000400600000a0100025db8d8234e2101bb066fa97350cd7c465010ffff00000000 1:1000083:02000000000102000000000208004500002812344000400600000a0100035db8d8244e2200505395121c69136c175010ffff00000000 0:1000111:02000000000102000000000208004500005612344000400600000a0100025db8d8234e2101bb066fa97350cd7c465018ffff00000000505249202a20485454502f322e300d0a0d0a534d0d0a0d0a00000604000000000000030000006400002101240000 1:1000132:02000000000102000000000208004500004412344000400600000a0100035db8d8244e2200505395121c69136c175018ffff00000000474554202f6920485454502f312e310d0a486f73743a20680d0a0d0a 0:1000136:02000000000102000000000208004500004b12344000400600000a0100025db8d8234e2101bb066fa9a150cd7c465018ffff00000000000180000000ff8287458263cf41871ae5f23a6ba0bf7a87aec3c65602b83f518290bf 1:1000199:02000000000102000000000208004500004612344000400600005db8d8240a01000300504e2269136c17539512385018ffff00000000485454502f312e3120323030204f4b0d0a5365727665723a20730d0a0d0a 0:1000164:02000000000102000000000208004500002812344000400600000a0100025db8d8234e2101bb066fa9c450cd7c465011ffff00000000 1:1000248:02000000000102000000000208004500002812344000400600000a0100035db8d8244e2200505395123869136c175011ffff00000000")
+  = let r := bs "-;-;-;-;-;-;-;Q.474554.2f69.11.486f7374=68;Q2 GET /x hdr=4:user-agent:probe/1.0,5:accept-language:de cookies= referer=~ ua=probe/1.0 lang={al:6465} sig=2%3auser-agent%2caccept-language%3d%5bde%5d%3aHost%2cConnection%2cAccept%2cAccept-Encoding%2cAccept-Charset%2cKeep-Alive%3aprobe/1.0;R.11.200.536572766572=73;-;-" in r ++ [tab] ++ r ++ [tab] ++ bs "0".
 Proof. vm_compute. reflexivity. Qed.
 
 Require Extraction.
